@@ -1,6 +1,8 @@
 // pbfdmg renders files in which one block carries one of the damage classes of C06 and scans them
 // with the real scanner.  One case per line on stdin:
-//   {"kind":"dmg","class":"<name>","pos":k,"nb":4,"n":procs,"zlib":bool,"variant":v}
+//
+//	{"kind":"dmg","class":"<name>","pos":k,"nb":4,"n":procs,"zlib":bool,"variant":v}
+//
 // stdout: {"case":..., "run":{cfg,H,reads,rem,outcome,resume}} in the vocabulary of PbfPipeline!RunOK:
 // cfg.blocks = intact blocks ("data", n objects) with the damaged one marked "bad".
 // The damaged block is otherwise a normal block; which block is damaged and how is all this program
